@@ -22,7 +22,9 @@ use std::{
 };
 
 use artifact_content::get_artifact_path_and_content;
-use common_lang_types::{ArtifactPathAndContent, CurrentWorkingDirectory, FileSystemOperation};
+use common_lang_types::{
+    ArtifactPathAndContent, CurrentWorkingDirectory, FileSystemOperation, WithGenericNonFatalDiagnostics,
+};
 use graphql_network_protocol::GraphQLAndJavascriptProfile;
 use h_fs::{content_id, materialize, path_to_components, reset_mtimes, snapshot};
 use intern::string_key::Intern;
@@ -83,6 +85,23 @@ struct FaultLog {
 
 fn cwd_of(p: &Project) -> CurrentWorkingDirectory {
     p.dir.to_str().expect("utf8 dir").intern().into()
+}
+
+/// The artifacts of whatever `get_artifact_path_and_content` returns on success: a plain `(artifacts, stats)` tuple
+/// today. The repository's own non-fatal-diagnostics wrapper is tolerated, so that the harness still builds (and C17
+/// still observes) when a change moves the signature to it.
+trait GeneratedArtifacts {
+    fn artifacts(&self) -> &Vec<ArtifactPathAndContent>;
+}
+impl<S> GeneratedArtifacts for (Vec<ArtifactPathAndContent>, S) {
+    fn artifacts(&self) -> &Vec<ArtifactPathAndContent> {
+        &self.0
+    }
+}
+impl<T: GeneratedArtifacts, E> GeneratedArtifacts for WithGenericNonFatalDiagnostics<T, E> {
+    fn artifacts(&self) -> &Vec<ArtifactPathAndContent> {
+        self.item.artifacts()
+    }
 }
 
 fn compile_step(p: &mut Project, case: &Value, step_no: usize, step: &Value, out: &mut impl Write) {
@@ -184,7 +203,7 @@ fn compile_step(p: &mut Project, case: &Value, step_no: usize, step: &Value, out
     let generated: Option<Result<Vec<Value>, String>> = match (&outcome, p.state.as_ref()) {
         (Ok(Some(_)), Some(state)) => {
             match catch_unwind(AssertUnwindSafe(|| get_artifact_path_and_content(&state.db))) {
-                Ok(Ok((arts, _))) => Some(Ok(arts.iter().map(artifact_json).collect())),
+                Ok(Ok(r)) => Some(Ok(r.artifacts().iter().map(artifact_json).collect())),
                 Ok(Err(ds)) => Some(Err(ds
                     .iter()
                     .map(|d| d.0.message.clone())
@@ -223,6 +242,14 @@ fn compile_step(p: &mut Project, case: &Value, step_no: usize, step: &Value, out
             rec["a"] = json!(a);
             rec["count"] = json!(*n as i64);
             rec["done"] = json!(l.seen.len());
+        }
+        (Ok(Some(Err(ds))), Some(Ok(_))) if step.get("cls").is_some() && !l.fired => {
+            // The program of this step is invalid by construction (class `cls`), no fault was injected, and compile
+            // reported diagnostics although artifact generation did not: still "a compile that reports an error
+            // diagnostic" (C17's premise is about what compile reports, not about where it is detected).
+            rec["t"] = json!("invalid");
+            rec["stage"] = json!("reported-by-compile-only");
+            rec["diag"] = json!(ds.iter().map(|d| d.0.message.clone()).collect::<Vec<_>>().join(" | ").chars().take(300).collect::<String>());
         }
         (Ok(Some(Err(ds))), Some(Ok(a))) => {
             // the program is valid, compile failed: an I/O error while writing
